@@ -73,6 +73,20 @@ def _api(ti, tsi, latent, di, fail=False):
 _KEYS = [(ti, tsi, lat, di) for ti in range(len(POOL)) for tsi in range(len(TS_POOL)) for lat in (True, False) for di in range(len(DEPTHS))]
 
 
+DUMMY_TEXTS = ["12.12.2020 8-10", "tomorrow 8pm", "friday morning 9-5", "meet monday"]
+
+
+def dummy_table():
+    """candidate streams under the constant scorer (ties everywhere): order-sensitive code shows here"""
+    out = {}
+    for t in DUMMY_TEXTS:
+        st = [(str(c.resolution), c.production, (c.resolution.mstart, c.resolution.mend)) for c in
+              C.ctparse_gen(t, ts=TS_POOL[0], timeout=0, scorer=DummyScorer(), max_stack_depth=0) if c is not None]
+        p = C.ctparse(t, ts=TS_POOL[0], timeout=0, scorer=DummyScorer())
+        out[t] = [st, str(p.resolution), p.production]
+    return out
+
+
 def solo_table(reverse=False):
     """reference results, computed by the check driver in FRESH processes (one in forward, one in
     reverse pool order) and handed over through VQ_SOLO: an in-process reference would itself be
